@@ -243,7 +243,7 @@ def run_range(argv, lo, hi, *, engine="", env=None, case_timeout=60.0, crash_pol
 
 
 TIMING_SIG = re.compile(r"returns-late|far-too-late|not-prompt|timed-out|did-not-wake|one-after-another|starved|never-returned|never-finished|did-not-finish"
-                        r"|waited-for|too-late|never-preempted|slept-out|waits-out|not-settled-promptly|completion-lost|another-task-never-ran|process-hung|never-returns")
+                        r"|waited-for|too-late|never-preempted|slept-out|waits-out|not-settled-promptly|completion-lost|another-task-never-ran|process-hung|never-returns|come-back-late|loop-thread-stalled")
 
 
 def fan_out(argv, ncases, *, jobs=None, shard=None, confirm_timing=False, **kw):
